@@ -41,12 +41,20 @@ pub enum Op {
     Advance { n: u8 },
     /// side chain replacing the last `back`+1 blocks
     Reorg { back: u8 },
+    /// the wallet builds a staking transaction (Wallet::create_staking_transaction, as the block
+    /// producer does) over amount_sel/65536 of a twentieth of its balance; it waits for inclusion
+    /// like any built transaction. Only in cases with a stake period.
+    Stake { amount_sel: u16 },
 }
 
 #[derive(Debug, Clone, Serialize, Deserialize, PartialEq, Eq, Hash)]
 pub struct Case {
     pub gp: u64,
     pub ops: Vec<Op>,
+    /// 0: no staking operations. k > 0: staked outputs unlock after k blocks (the stake requirement
+    /// of the chain stays 0, so that blocks of other producers need no staking transaction)
+    #[serde(default)]
+    pub stake_period: u8,
 }
 
 #[derive(Debug, Default)]
@@ -54,6 +62,8 @@ pub struct Info {
     pub steps: usize,
     pub built: usize,
     pub built_multi: usize,
+    pub staking_built: usize,
+    pub staking_mixed: usize,
     pub extreme_requests: usize,
     pub included: usize,
     pub received: usize,
@@ -77,6 +87,9 @@ pub fn run_case(case: &Case) -> (Vec<(String, String)>, Info) {
     let gp = case.gp;
     let ncfg = NodeCfg { gp, heartbeat: 100, social_stake: 0, loading_completed: true, prune: 8 };
     let mut node = Node::new(ncfg, 0);
+    if case.stake_period > 0 {
+        node.chain.social_stake_period = case.stake_period as u64;
+    }
     let me = key(0);
     let issuance: Vec<(u8, u64)> = vec![(0, 90_000_000), (0, 80_000_000), (0, 7_000), (1, 500_000_000), (2, 600_000_000), (3, 300_000_000), (0, 1)];
     let g = block_on(node.genesis(&issuance, 0));
@@ -205,6 +218,48 @@ pub fn run_case(case: &Case) -> (Vec<(String, String)>, Info) {
                         if !reorg_happened && keys.iter().any(|k| committed.contains(k)) {
                             let which: Vec<String> = tx.from.iter().filter(|s| committed.contains(&ukey_of_slip(s))).map(|s| format!("{}-{}-{} amount {} type {:?}", s.block_id, s.tx_ordinal, s.slip_index, s.amount, s.slip_type)).collect();
                             v.push(("C19|built_tx_reuses_committed_input".into(), format!("step {step}: the wallet spent an output it had already committed to a pending transaction: {:?} (tip {})", which, tip_id)));
+                        }
+                        built.push(tx);
+                    }
+                }
+            }
+            Op::Stake { amount_sel } => {
+                opname = "stake";
+                if case.stake_period == 0 {
+                    continue;
+                }
+                let (bal, _, _, _) = wallet_view(&node);
+                let amount = ((((bal / 20) as u128) * (*amount_sel as u128 + 1)) >> 16) as u64;
+                let unlocked = node.chain.get_latest_unlocked_stake_block_id();
+                let last_valid = (tip_id + 1).saturating_sub(gp);
+                let out = catch(|| {
+                    block_on(async {
+                        let mut w = node.wallet.write().await;
+                        w.create_staking_transaction(amount.max(1), unlocked, last_valid)
+                    })
+                });
+                match out {
+                    Outcome::Panicked(site, msg) => {
+                        v.push((format!("C19|build_panic|site={site}|staking"), format!("step {step}: Wallet::create_staking_transaction panicked at {site}: {msg}")));
+                        break;
+                    }
+                    Outcome::Returned(Err(_)) => {}
+                    Outcome::Returned(Ok(mut tx)) => {
+                        tx.generate(&me.0, 0, 0);
+                        info.built += 1;
+                        info.staking_built += 1;
+                        if tx.from.iter().any(|s| s.slip_type == SlipType::BlockStake) && tx.from.iter().any(|s| s.slip_type != SlipType::BlockStake && s.amount > 0) {
+                            info.staking_mixed += 1;
+                        }
+                        let keys: Vec<UKey> = tx.from.iter().filter(|s| s.amount > 0).map(|s| ukey_of_slip(s)).collect();
+                        let set: BTreeSet<&UKey> = keys.iter().collect();
+                        if set.len() != keys.len() {
+                            v.push(("C19|built_tx_repeats_input|staking".into(), format!("step {step}: the wallet built a staking transaction listing an output twice")));
+                        }
+                        let tin: u128 = tx.from.iter().map(|s| s.amount as u128).sum();
+                        let tout: u128 = tx.to.iter().map(|s| s.amount as u128).sum();
+                        if tout > tin {
+                            v.push(("C19|built_tx_overspends|staking".into(), format!("step {step}: the wallet built a staking transaction with outputs {tout} > inputs {tin}")));
                         }
                         built.push(tx);
                     }
@@ -347,6 +402,8 @@ fn eval(c: &mut Ctx, case: &Case, counting: bool) -> Vec<(String, String)> {
         for (n, k) in [
             (info.built, "transactions_built_by_wallet"),
             (info.built_multi, "built_with_two_payments"),
+            (info.staking_built, "staking_transactions_built"),
+            (info.staking_mixed, "staking_transactions_topping_up_an_old_stake_with_liquid_funds"),
             (info.extreme_requests, "requests_with_amounts_near_2^63/2^64"),
             (info.included, "built_transactions_included"),
             (info.received, "incoming_payments"),
@@ -378,11 +435,12 @@ pub fn arb_op() -> impl Strategy<Value = Op> {
         1 => Just(Op::DropBuilt),
         2 => (0u8..6).prop_map(|n| Op::Advance { n }),
         1 => (0u8..3).prop_map(|back| Op::Reorg { back }),
+        3 => any::<u16>().prop_map(|amount_sel| Op::Stake { amount_sel }),
     ]
 }
 
 pub fn arb_case(max_ops: usize) -> impl Strategy<Value = Case> {
-    (prop_oneof![Just(6u64), Just(8u64), Just(12u64), Just(100u64)], proptest::collection::vec(arb_op(), 3..max_ops)).prop_map(|(gp, ops)| Case { gp, ops })
+    (prop_oneof![Just(6u64), Just(8u64), Just(12u64), Just(100u64)], proptest::collection::vec(arb_op(), 3..max_ops), prop_oneof![2 => Just(0u8), 1 => 1u8..4]).prop_map(|(gp, ops, stake_period)| Case { gp, ops, stake_period })
 }
 
 pub fn run(ctx: &mut Ctx) {
